@@ -155,11 +155,18 @@ def extra_names() -> List[str]:
     return sorted(EXTRA_SETS)
 
 
-def feature_protos() -> Dict[str, str]:
+# feature packages that fail on the pinned tree under some option combination for a RECORDED reason (KF14): they form a
+# program of their own, so that their known failure cannot mask anything about the other feature packages
+FEATURES_APART = {"builtin_list_dict"}
+
+
+def feature_protos(apart: bool = False) -> Dict[str, str]:
     """one tiny package per single feature: exposes imports / helpers that are only emitted when
     some OTHER feature happens to be present in the same package"""
     out = {}
     for name, body in FEATURES.items():
+        if (name in FEATURES_APART) != apart:
+            continue
         imports = ""
         while body.startswith("import "):
             imp, body = body.split(";", 1)
@@ -172,7 +179,7 @@ def feature_protos() -> Dict[str, str]:
 def item_protos(item: dict) -> Dict[str, str]:
     k = item["kind"]
     if k == "features":
-        return feature_protos()
+        return feature_protos(apart=bool(item.get("apart")))
     if k == "matrix":
         return matrix_protos()
     if k == "gen":
@@ -194,7 +201,7 @@ def item_name(item: dict) -> str:
         return f"inputs:{item['dir']}"
     if k == "extra":
         return f"extra:{item['name']}" + (":roots-on-cmdline" if item.get("cmdline") == "roots" else "")
-    return k + (":" + item["plugin_opts"] if item.get("plugin_opts") else "")
+    return k + (":apart" if item.get("apart") else "") + (":" + item["plugin_opts"] if item.get("plugin_opts") else "")
 
 
 def build_item(item: dict, opts: str = "") -> Build:
